@@ -32,21 +32,22 @@ import (
 func init() { register("C18", "model_checking", runC18) }
 
 type c18State struct {
-	dbs           *schemas.DB
-	ref           *rm.Schema
-	env           *e2e.Env
-	px            *e2e.Proxy
-	c             client.Client
-	pz            *e2e.Pauser
-	cookies       []client.MonitorCookie
-	mu            sync.Mutex
-	everConnected bool
-	used          map[string]bool // tables taken by monitors
-	n             int64
-	corrupt       int32 // notifications still to corrupt
-	txnSeq        int64 // transaction ids handed out in update3 notifications
-	echoSwallow   int32 // echo requests still to swallow
-	echoCut       int32 // echo requests still to answer by hanging up
+	dbs            *schemas.DB
+	ref            *rm.Schema
+	env            *e2e.Env
+	px             *e2e.Proxy
+	c              client.Client
+	pz             *e2e.Pauser
+	cookies        []client.MonitorCookie
+	mu             sync.Mutex
+	everConnected  bool
+	used           map[string]bool // tables taken by monitors
+	n              int64
+	corrupt        int32 // notifications still to corrupt
+	txnSeq         int64 // transaction ids handed out in update3 notifications
+	silentToProbes bool  // the proxy swallows the client's inactivity probes (echo requests carrying "libovsdb echo")
+	echoSwallow    int32 // echo requests still to swallow
+	echoCut        int32 // echo requests still to answer by hanging up
 }
 
 const c18CallTimeout = 1500 * time.Millisecond
@@ -319,6 +320,9 @@ func (s *c18State) run(ev string) string {
 	case "schema":
 		_ = s.c.Schema()
 		return "ok"
+	case "pause-300ms":
+		time.Sleep(300 * time.Millisecond)
+		return "ok"
 	case "connected":
 		return fmt.Sprint(s.c.Connected())
 	}
@@ -334,7 +338,7 @@ func (s *c18State) connectedOnce() bool {
 // apiUsable: events that touch the client without a cache being there would nil-deref by design
 // (Get/List before Connect panic in the client): those are kept out when there is no cache.
 
-func newC18State(reconnect bool) *c18State {
+func newC18State(reconnect bool, probe ...int) *c18State {
 	dbs := srefDB(false)
 	s := &c18State{dbs: dbs, ref: rm.FromOvsdb(dbs.Schema), used: map[string]bool{}}
 	s.env = e2e.Start(dbs)
@@ -436,6 +440,8 @@ func newC18State(reconnect bool) *c18State {
 		}
 		raw := string(m.Raw)
 		switch {
+		case m.Method == "echo" && s.silentToProbes && strings.Contains(raw, "libovsdb echo"):
+			return e2e.Swallow
 		case m.Method == "echo" && atomic.CompareAndSwapInt32(&s.echoSwallow, 1, 0):
 			return e2e.Swallow
 		case m.Method == "echo" && atomic.CompareAndSwapInt32(&s.echoCut, 1, 0):
@@ -454,7 +460,14 @@ func newC18State(reconnect bool) *c18State {
 		}
 		return e2e.Forward
 	}
-	if reconnect {
+	if len(probe) > 0 && probe[0] > 0 {
+		interval := time.Hour
+		if probe[0] == 2 {
+			interval = 100 * time.Millisecond
+			s.silentToProbes = true
+		}
+		s.c = e2e.NewClient(dbs, s.px.Sock, client.WithInactivityCheck(interval, time.Second, backoff.NewConstantBackOff(time.Millisecond)))
+	} else if reconnect {
 		s.c = e2e.NewClient(dbs, s.px.Sock, client.WithReconnect(time.Second, backoff.NewConstantBackOff(time.Millisecond)))
 	} else {
 		s.c = e2e.NewClient(dbs, s.px.Sock)
@@ -594,9 +607,15 @@ type c18Session struct {
 	NPre  int      // pair: number of prefix events
 	Rec   bool     // client created with WithReconnect
 	Nth   int      // lockpair: which occurrence of the point
+	Probe int      // client created with WithInactivityCheck: 1 = probes never due (interval of an hour), 2 = an interval of 100 ms and a peer that never answers the probes
 }
 
 func (x c18Session) String() string {
+	if x.Probe > 0 {
+		y := x
+		y.Probe = 0
+		return map[int]string{1: "(client with inactivity check, probes never due) ", 2: "(client with inactivity check every 100 ms, peer silent to its probes) "}[x.Probe] + y.String()
+	}
 	if x.Rec {
 		y := x
 		y.Rec = false
@@ -624,7 +643,7 @@ func (x c18Session) String() string {
 // client's background goroutines X sets in motion), then one run per point with X parked there and Y started meanwhile.
 func c18Points(r *ev.Run, x c18Session) {
 	X := x.Seq[x.NPre]
-	s := newC18State(x.Rec)
+	s := newC18State(x.Rec, x.Probe)
 	for _, e := range x.Seq[:x.NPre] {
 		select {
 		case <-s.start(e).done:
@@ -656,7 +675,7 @@ func c18Points(r *ev.Run, x c18Session) {
 }
 
 func c18Run(r *ev.Run, x c18Session) (sawError bool) {
-	s := newC18State(x.Rec)
+	s := newC18State(x.Rec, x.Probe)
 	defer s.close()
 	cse := func(msg string, gs []string) interface{} {
 		return map[string]interface{}{"session": x.String(), "msg": msg, "client_goroutines": gs}
@@ -738,7 +757,11 @@ func c18Run(r *ev.Run, x c18Session) (sawError bool) {
 		}
 		cy := s.start(Y)
 		// give Y the chance to queue behind X (not an oracle)
-		resY, yDone := wait(cy, 150*time.Millisecond)
+		hold := 150 * time.Millisecond
+		if Y == "pause-300ms" {
+			hold = 400 * time.Millisecond // X stays parked while the client's own timers run
+		}
+		resY, yDone := wait(cy, hold)
 		release()
 		resX, ok := wait(cx, watchdog)
 		if !ok {
@@ -895,6 +918,15 @@ func runC18(r *ev.Run) {
 					continue
 				}
 				sessions = append(sessions, c18Session{Kind: "pair", Seq: append(append([]string{}, pre...), p.call, y), Point: p.point, NPre: len(pre)})
+			}
+		}
+	}
+	// clients with the inactivity check: a Transact that has its reply and is about to tell the prober about the traffic, while
+	// the connection goes away, the prober gives the peer up, or other calls arrive
+	for _, probe := range []int{1, 2} {
+		for _, pre := range [][]string{{"connect"}, {"connect", "monitor-ok"}} {
+			for _, y := range []string{"cut", "disconnect", "close", "pause-300ms", "transact-ok", "echo", "notification", "get-hit"} {
+				sessions = append(sessions, c18Session{Kind: "pair", Seq: append(append([]string{}, pre...), "transact-ok", y), Point: "transact:post-rpc", NPre: len(pre), Probe: probe})
 			}
 		}
 	}
@@ -1063,7 +1095,7 @@ var c18RaceOff int64
 // c18Race runs prefix, then X and Y started together with notifications flowing, free-running; data races reported
 // by the runtime while the session ran are turned into violations.
 func c18Race(r *ev.Run, x c18Session) {
-	s := newC18State(x.Rec)
+	s := newC18State(x.Rec, x.Probe)
 	for _, e := range x.Seq[:x.NPre] {
 		select {
 		case <-s.start(e).done:
